@@ -93,6 +93,8 @@ def cells(tier, seed):
         for cls in ("steady", "timedep"):
             for form in ((STEADY_FORMS[:2] if q else STEADY_FORMS) if cls == "steady" else (TD_FORMS[:2] if q else TD_FORMS)):
                 out.append({"kind": "regrid", "cls": cls, "form": form, "N": 6 if cls == "steady" else 5, "cat": k, "depth": 3 if q else 4})
+                for method in (("forward_euler", "backward_euler") if cls == "timedep" else ("-",)):
+                    out.append({"kind": "reuse", "cls": cls, "form": form, "N": 6 if cls == "steady" else 5, "method": method, "cat": k})
         for prob, dims in (("Poisson1D", (6, 9)), ("Heat1D", (5, 8))):
             for dim in dims:
                 for field in ("None", "Step", "KL"):
@@ -885,6 +887,82 @@ def _eval_regrid(cell, res):
     res.sample = {"class": comp, "form": cell["form"], "last_history": hist}
 
 
+def _eval_reuse(cell, res):
+    """One live PDE object (and a PDEModel over it) used repeatedly: results handed out earlier must not change when the
+    object is used again, and a parameter array modified in place between two calls must be honoured."""
+    import cuqi
+    N, k, cls = cell["N"], cell["cat"], cell["cls"]
+    g, dx = _grid(N)
+    if cls == "steady":
+        form, xs, pdim = _steady_form(cell["form"], N, k)
+        make = lambda: cuqi.pde.SteadyStateLinearPDE(form, grid_sol=g.copy())
+        comp = "SteadyStateLinearPDE"
+    else:
+        form, xs, pdim, t0 = _td_form(cell["form"], N, k)
+        times = _times("nonuniform", 4, t0)
+        make = lambda: cuqi.pde.TimeDependentLinearPDE(form, times, grid_sol=g.copy(), method=cell["method"], time_obs="final")
+        comp = "TimeDependentLinearPDE"
+    facet = "method=%s" % cell["method"] if cls == "timedep" else "steady"
+
+    def run(pde, x):
+        pde.assemble(x)
+        sol, info = pde.solve()
+        return sol, pde.observe(sol)
+    try:
+        # (1) results of an earlier solve are not altered by a later solve on the same object
+        live = make()
+        sol1, obs1 = run(live, xs[0].copy())
+        keep_sol, keep_obs = np.array(sol1, dtype=float, copy=True), np.array(obs1, dtype=float, copy=True)
+        run(live, xs[1].copy())
+        res.transitions += 2
+        res.evaluations += 1
+        res.state("solve-twice")
+        if not close(np.asarray(sol1, float), keep_sol, 1e-14) or not close(np.asarray(obs1, float), keep_obs, 1e-14):
+            res.fail("C18|%s|earlier-result-altered|%s" % (comp, facet), "the solution/observation returned by the first solve changed "
+                     "when the same PDE object solved for another parameter (a shared buffer is handed out)")
+        # (2) the same parameter array modified in place between two calls
+        live = make()
+        x = xs[0].copy()
+        run(live, x)
+        x[0] += 0.5
+        x[-1] *= 1.25
+        _, ob = run(live, x)
+        _, of = run(make(), x.copy())
+        res.transitions += 3
+        res.evaluations += 1
+        res.state("inplace-parameter")
+        if not close(np.asarray(ob, float), np.asarray(of, float), 1e-10):
+            res.fail("C18|%s|stale-assembly|parameter-modified-in-place" % comp, "after the parameter array was modified in place the "
+                     "object still solved the system assembled for the old values")
+        # (3) PDEModel: outputs of earlier calls stay what they were; in-place modified input honoured
+        model = cuqi.model.PDEModel(make(), range_geometry=cuqi.geometry.Continuous1D(N), domain_geometry=cuqi.geometry.Continuous1D(pdim))
+        ya = model.forward(xs[0].copy())
+        keep = np.array(ya, dtype=float, copy=True)
+        yb = model.forward(xs[1].copy())
+        res.transitions += 2
+        res.evaluations += 1
+        res.state("model-twice")
+        if not close(np.asarray(ya, float), keep, 1e-14):
+            res.fail("C18|PDEModel|earlier-output-altered|%s" % facet, "the output of model(a) changed when model(b) was evaluated")
+        x = xs[0].copy()
+        model.forward(x)
+        x[0] += 0.5
+        y1 = np.asarray(model.forward(x), float)
+        y2 = np.asarray(cuqi.model.PDEModel(make(), range_geometry=cuqi.geometry.Continuous1D(N),
+                                            domain_geometry=cuqi.geometry.Continuous1D(pdim)).forward(x.copy()), float)
+        res.transitions += 3
+        res.evaluations += 1
+        if not close(y1, y2, 1e-10):
+            res.fail("C18|PDEModel|stale-assembly|parameter-modified-in-place", "model(x) after x was modified in place is the output "
+                     "for the old x")
+    except Exception as e:
+        res.refused += 1
+        res.outcomes.add("reuse-raises:%s" % type(e).__name__)
+    res.traces += 1
+    res.outcomes.add("reuse:%s:%s" % (cls, cell["form"]))
+    res.sample = {"class": comp, "form": cell["form"]}
+
+
 def eval_cell(cell):
     res = CellResult(cell)
     if cell["kind"] == "steady":
@@ -895,6 +973,8 @@ def eval_cell(cell):
         _eval_shipped(cell, res)
     elif cell["kind"] == "regrid":
         _eval_regrid(cell, res)
+    elif cell["kind"] == "reuse":
+        _eval_reuse(cell, res)
     else:
         raise ValueError(cell["kind"])
     return res
